@@ -120,10 +120,18 @@ def build(tier):
     ] + protocol.targets(['NV_C03']) + [protocol.ellipsoid()]
     return {
         'targets': targets, 'vcs': [], 'bounded': [lemma.target()],
-        'decided': ['bundle_t representation invariant 0 < m_size < capacity() after append / moveto (and from m_size >= 0, as the constructor uses append); every index written into m_bundleE / m_bundleS / m_alphas lies in [0, capacity()); delete_largest reads m_alphas inside [0, size()) and a full bundle loses at least `count` entries'],
-        'not_decided': ['the certificate f(x)-f* <= 2 eps sqrt(n)(1+|x-x*|): follows from the cutting-plane model being a lower bound, a convex-analysis argument about values', 'ellipsoid always converges', 'stop-test protocol of csearch/rqb/fpba (T2)'],
-        'assumptions': ['cardinality lemma for std::nth_element + nano::remove_if (entries at or after the partition point are >= any element at or before it), stated in specs/C03/bundle.h',
-                        'contents of m_bundleS, smeared_e/smeared_s and the QP solve are erased'],
+        'decided': ['bundle_t representation invariant 0 < m_size < capacity() after append / moveto (and from m_size >= 0, as the constructor uses append); every index written into m_bundleE / m_bundleS / m_alphas lies in [0, capacity()); delete_largest reads m_alphas inside [0, size()) and a full bundle loses at least `count` entries',
+                    'bundle_t constructor: capacity() = max_size + 1 >= 3 slots in all three buffers (the shape NV_BUNDLE_SHAPE every other contract assumes), centre copied from the state, invariant established by the first append',
+                    'econverged / sconverged: smeared_e <= epsilon * sqrt(dimension of x), |smeared_s|_2 <= epsilon * sqrt(dimension of x) (the formula of the property; sqrt uninterpreted)',
+                    'csearch_t::search: the returned (y, gy, fy) is one evaluation; converged => both stopping tests were evaluated true with the caller\'s epsilon on the bundle version returned by its last solve; non-finite fy => failed; a status that makes a claim about the returned point was decided in this call after the last evaluation (pins the repair 778c4d3); the proximity centre is not moved; at most one evaluation beyond max_evals',
+                    'rqb / fpba1,2 do_minimize: converged => the curve search decided converged for the final bundle; rqb: the returned state is the bundle\'s proximity centre; fpba: the returned (best) value is not above a finite centre value',
+                    'ellipsoid: converged => g\'Hg < machine epsilon was computed after the last evaluation, or sqrt(g\'Hg) < epsilon was evaluated after the last evaluation on that iteration\'s g\'Hg'],
+        'not_decided': ['the certificate f(x)-f* <= 2 eps sqrt(n)(1+|x-x*|): follows from the cutting-plane model being a lower bound, a convex-analysis argument about values', 'ellipsoid always converges',
+                        'the deep-cut ellipsoid update, the linearisation errors, aggregation, the QP solve, the proximity parameter: erased numerics'],
+        'assumptions': ['cardinality lemma for std::nth_element + nano::remove_if (entries at or after the partition point are >= any element at or before it), stated in specs/C03/bundle.h; checked on the real nano::remove_if for capacities <= 5 by the bounded target lemma_remove_if_cardinality_bounded',
+                        'contents of m_bundleS, smeared_e/smeared_s and the QP solve are erased',
+                        'protocol view of bundle_t (specs/C03/protocol.h nv_pb_*): solve / append / moveto change the bundle version, moveto stores (y, gy, fy) as the centre, econverged / sconverged are functions of the current bundle and epsilon (transcribed from specs/C03/bundle.h and src/solver/bundle.cpp)',
+                        'vector identities and the deterministic-function prophecy of specs/C02/nonls.h'],
         'trusted': [],
     }
 
